@@ -1,7 +1,7 @@
 """C02 - Blocks take effect only when causally complete: typestate analysis of Delta.status."""
 from ..cfg import cfg_of
 from ..defuse import du_of, walk, peel, callee_name, fmt
-from ..conds import Lit, lits_of, all_edge_lits, status_variant
+from ..conds import Lit, lits_of, all_edge_lits, status_variant, closure_result_lits
 from ..callgraph import cg_of
 from ..roles import roles_of
 from ..common import arg_term, contains_call, call_named, field_path, assigns_of_return
@@ -839,6 +839,27 @@ def check_ready_earned(b, ready_block, facts, res):
             flds = {x[2] for x in walk(l.term) if x[0] == "field" and x[2] in DEPF}
             if flds and fld not in flds:
                 bad.append((sorted(flds), sorted(l.variants)))
+            elif flds and "Some" in l.variants:
+                # presence of the own field, but tested through a conditional combinator (`changes.as_ref().filter(|_| flag)`,
+                # `.and_then(..)`, `.zip(other)`): accepted only when the combinator's closure speaks about the payload alone
+                for x in walk(l.term, False):
+                    nm = callee_name(x) if x[0] == "call" else None
+                    if nm not in ("filter", "take_if", "and_then", "zip", "xor", "and", "then", "then_some", "filter_map"):
+                        continue
+                    okc = False
+                    if nm in ("filter", "take_if") and len(x[2]) >= 2:
+                        c_ = x[2][1]
+                        hops = 0
+                        while hops < 20 and c_[0] in ("ref", "deref", "cast", "var"):
+                            hops += 1
+                            c_ = c_[3] if c_[0] == "var" else c_[1]
+                        fcb = facts.body(c_[1]) if c_[0] == "closure" else None
+                        tl = closure_result_lits(fcb, facts, True) if fcb is not None else []
+                        okc = bool(tl) and all(
+                            any(y[0] == "param" and y[1] == 2 for y in walk(tl_.term)) and
+                            not any(y[0] == "param" and y[1] == 1 for y in walk(tl_.term)) for tl_ in tl if tl_.term is not None)
+                    if not okc:
+                        bad.append(([nm], ["passing"]))
         res.instance("A2", "%s loop is entered whenever `%s` is present (no guard on another dependency field): %s" % (fld, fld, not bad), b.loc())
         if bad:
             res.violation("A2", "%s|%s-check-conditional-on:%s" % (b.path, fld, ",".join(bad[0][0])),
